@@ -349,9 +349,94 @@ pub fn run(prop: &str, tier: &str, out: Option<&Path>) -> i32 {
                 run_seq_ilv(prop, tier, cfgs, params, scs, ilv_opts(thorough), seq_assume, out)
             }
         }
+        "C18" => {
+            let mut cl = classings_std();
+            cl.extend(classings_zero_slot());
+            let mut frames = vec![
+                1,
+                63,
+                64,
+                HUGE_FRAMES - 1,
+                HUGE_FRAMES + 1,
+                TREE_FRAMES - 1,
+                TREE_FRAMES,
+                TREE_FRAMES + 1,
+                TREE_FRAMES + HUGE_FRAMES,
+                2 * TREE_FRAMES + 2 * HUGE_FRAMES + 5,
+                4 * TREE_FRAMES,
+            ];
+            frames.sort();
+            frames.dedup();
+            let cfgs = configs(&frames, &cl, &BOTH);
+            let t0 = Instant::now();
+            let mut total = SeqStats::default();
+            let mut col = crate::report::Collector::default();
+            let mut params = SeqParams {
+                prop: prop.to_string(),
+                profile: Profile::c09(),
+                depth: if thorough { 3 } else { 2 },
+                max_states: if thorough { 300_000 } else { 40_000 },
+                probes: Probes {
+                    bounds: true,
+                    ..Default::default()
+                },
+                max_secs: if thorough { 300.0 } else { 15.0 },
+            };
+            for flush_start in [false, true] {
+                params.probes.flush_start = flush_start;
+                let (st, c) = explore_all(&cfgs, &params);
+                total.merge(st);
+                col.merge(c);
+            }
+            // construction modes incl. frames = 0 / empty buffers, both placements
+            let mut f0 = frames.clone();
+            f0.insert(0, 0);
+            let (builds, calls) = crate::extras::c09_constructions(&f0, &cl, &mut col);
+            // interleavings with the byte-exact bounds monitor
+            let scs = crate::scenarios::generate(thorough as usize);
+            let mut opts = ilv_opts(thorough);
+            opts.bound = if thorough { 2 } else { 1 };
+            let (ist, icol) = crate::ilv::explore_all(&scs, &opts);
+            col.merge(icol);
+            crate::guard::clear_inflight();
+            let mut m = seq_coverage(&total, &params, json!({}));
+            m.insert("states".into(), json!(total.states + ist.sched_points));
+            m.insert("transitions".into(), json!(total.transitions + ist.steps));
+            m.insert("traces_validated_against_impl".into(), json!(total.transitions + ist.executions));
+            m.insert("hooked_atomic_accesses_checked_sequential".into(), json!(total.hooked_steps));
+            m.insert("hooked_atomic_accesses_checked_concurrent".into(), json!(ist.steps));
+            m.insert("construction_modes".into(), json!(builds));
+            m.insert("calls_after_construction".into(), json!(calls));
+            m.insert("interleaving_executions".into(), json!(ist.executions));
+            m.insert("buffer_placements".into(), json!(["end flush with trailing PROT_NONE page", "start flush with leading PROT_NONE page"]));
+            eprintln!(
+                "[C18] seq states={} transitions={} hooked={} | constructions={} | ilv executions={} secs={:.1}",
+                total.states, total.transitions, total.hooked_steps, builds, ist.executions, t0.elapsed().as_secs_f64()
+            );
+            finish(
+                Outcome {
+                    prop: prop.to_string(),
+                    tier: tier.to_string(),
+                    level: "model_checking",
+                    coverage: m,
+                    assumptions: vec![
+                        "monitors: PROT_NONE guard pages directly before/after each exactly-sized metadata buffer (a SIGSEGV inside a guard range is the verdict) and a byte-exact bounds check of every hooked atomic access; AddressSanitizer is not used".into(),
+                        "interleavings run on one OS thread: undefined behaviour from data races on non-atomic memory is not observable; all shared accesses are Atom operations".into(),
+                        HOOK_ASSUMPTION.into(),
+                    ],
+                    collector: col,
+                    wall_s: t0.elapsed().as_secs_f64(),
+                },
+                out,
+            )
+        }
         "C23" => crate::dom::c23(tier, out),
         "C16" => crate::dom::c16(tier, out),
         "C06" => crate::dom::c06(tier, out),
+        "C11" => crate::dom::c11(tier, out),
+        "C12" => crate::dom::c12(tier, out),
+        "C08" => crate::dom::c08(tier, out),
+        "C17" => crate::c17::c17(tier, out),
         "C07" => {
             let mut cl = classings_std();
             cl.push(classings_zero_slot()[0].clone());
